@@ -214,7 +214,7 @@ Fixpoint aframes (v : list ev) (r : list st) : bool :=
 Definition is_in_string (f : st) : bool := match f with InString => true | _ => false end.
 Definition rts_ok (f : st) (rts : list st) (v : list ev) : bool :=
   match f with
-  | AnyCommentStart | InlineComment | MultiLineComment =>
+  | AnyCommentStart | InlineComment | MultiLineComment | MultiLineCommentStart =>
     match rts with g :: r => (cframe g && shape g v && aframes v r)%bool | [] => false end
   | InStringEscU | InStringEscU1 | InStringEscU12 | InStringEscU123 =>
     match rts with g :: r => (is_in_string g && aframes v r)%bool | [] => false end
@@ -871,7 +871,10 @@ Qed.
    normal return, or stateInlineComment stepped back (only NewLine is queued and the step is the
    one the comment interrupted), or stateMultiLineComment skipped two bytes (which exist) *)
 Definition is_comment (f : st) : bool :=
-  match f with AnyCommentStart | InlineComment | MultiLineComment => true | _ => false end.
+  match f with
+  | AnyCommentStart | InlineComment | MultiLineComment | MultiLineCommentStart => true
+  | _ => false
+  end.
 Definition okresB (la : bytes) (fe : st) (r : res sc) : Prop :=
   match r with
   | ROk s1 =>
@@ -895,7 +898,7 @@ Ltac leaf0 :=
 Lemma comment_ok c la k s :
   Good s -> s_finds s = [] ->
   match s_step s with
-  | AnyCommentStart | InlineComment | MultiLineComment => True
+  | AnyCommentStart | InlineComment | MultiLineComment | MultiLineCommentStart => True
   | _ => False
   end ->
   okresB la (s_step s) (dispatch c la k (s_step s) s).
@@ -904,7 +907,7 @@ Proof.
   destruct step; try (exfalso; exact Hst); clear Hst;
     (good_start HG; destruct rts as [|g rts]; [discriminate Hrt|]; norm_hyps;
      lazy beta iota delta [dispatch];
-     unfold st_any_comment_start, st_inline_comment, st_multi_line_comment, next_is; unf;
+     unfold st_any_comment_start, st_multi_line_comment_start, st_inline_comment, st_multi_line_comment, next_is; unf;
      repeat (lazymatch goal with
              | |- okresB _ _ ?r =>
                let d := inner r in
@@ -1132,7 +1135,8 @@ Lemma tail_no_panic size lastb : forall fuel s index acc,
   snd (tail fuel s index size lastb acc) <> Panic.
 Proof.
   induction fuel as [|fuel IH]; intros s index acc Hwf Hts Hl; [lia|].
-  cbn [tail]. destruct (s_stk s) as [|[t b] rest] eqn:Es; [discriminate|].
+  cbn [tail]. destruct (s_stk s) as [|[t b] rest] eqn:Es;
+    [destruct (unfinished_step (s_step s)); discriminate|].
   rewrite types_cons in Hwf, Hts. cbn [length] in Hl.
   destruct t; try discriminate.
   - (* LiteralBegin *)
@@ -1234,7 +1238,8 @@ Lemma tail_err size lastb : forall fuel s index acc code p,
   snd (tail fuel s index size lastb acc) = Err code p -> p = (size - 1)%N.
 Proof.
   induction fuel as [|fuel IH]; intros s index acc code p; cbn [tail]; [discriminate|].
-  destruct (s_stk s) as [|[t b] rest]; [discriminate|].
+  destruct (s_stk s) as [|[t b] rest];
+    [destruct (unfinished_step (s_step s)); cbn [snd]; intros H; inversion H; reflexivity|].
   destruct t; try (cbn [snd]; intros H; inversion H; reflexivity).
   - destruct (ev_eqb LiteralBegin LiteralBegin && s_unf s)%bool;
       [cbn [snd]; intros H; inversion H; reflexivity|].
@@ -1293,7 +1298,7 @@ Ltac unfall :=
     st_found_object_end, st_found_array_end,
     st_in_string, st_in_string_esc, hex_then, st_in_string_esc_u123, st_neg, st_dot, expect,
     expect_last, st_types_shortcut_begin_of_schema_name, st_types_shortcut_after_pipe,
-    st_any_comment_start, st_inline_comment, st_multi_line_comment, next_is,
+    st_any_comment_start, st_multi_line_comment_start, st_inline_comment, st_multi_line_comment, next_is,
     st_any_annotation_start, st_inline_annotation_start, begin_inline_annotation,
     st_inline_annotation, st_inline_annotation_text_prefix, st_inline_annotation_text_prefix2,
     st_inline_annotation_text_skip, st_multi_line_annotation,
@@ -1444,7 +1449,7 @@ Lemma tail_bound size lastb : forall fuel s index acc,
   Forall (ev_le size) (fst (tail fuel s index size lastb acc)).
 Proof.
   induction fuel as [|fuel IH]; intros s index acc Hwf Hs Ha Hi; cbn [tail]; [exact Ha|].
-  destruct (s_stk s) as [|[t b] rest] eqn:Es; [exact Ha|].
+  destruct (s_stk s) as [|[t b] rest] eqn:Es; [destruct (unfinished_step (s_step s)); exact Ha|].
   rewrite types_cons in Hwf, Hi. inversion Hs as [|? ? Hb Hr]; subst. cbn [snd] in Hb.
   destruct t; try exact Ha.
   - (* LiteralBegin *)
@@ -1968,7 +1973,8 @@ Proof.
   cbn [tail] in H.
   destruct jstkF as [|[e0 b0] j0].
   - (* nothing open *)
-    cbn [map] in Hs. rewrite Hs in H. inversion H; subst.
+    cbn [map] in Hs. rewrite Hs in H.
+    destruct (unfinished_step (s_step s)); [inversion H|]. inversion H; subst.
     cbn [Scanner.tail Scanner.k_stk fst]. apply conv_frev.
   - cbn [map] in Hs. unfold sjp in Hs at 1. cbn [fst snd] in Hs. rewrite Hs in H, Hwf.
     rewrite types_cons in Hwf.
@@ -1979,7 +1985,8 @@ Proof.
     rewrite Hu in H. destruct uF; [inversion H|].
     unfold process_found in H. cbn [is_opening nonscalar_pair scalar_pair length] in H.
     destruct j0 as [|[e1 b1] j1].
-    + cbn [map length tail] in H. rewrite s_stk_set_stk in H. inversion H; subst.
+    + cbn [map length tail] in H. rewrite s_stk_set_stk in H.
+      destruct (unfinished_step _); [inversion H|]. inversion H; subst.
       cbn [Scanner.tail Scanner.k_stk Scanner.k_ctl Scanner.c_unf fst].
       rewrite conv_frev. unfold conv. cbn [filter is_newline_ev e_type negb map to_json_ev tj e_begin e_end].
       reflexivity.
@@ -1996,3 +2003,148 @@ Theorem schema_len_positive : forall pre c r n,
   forallb is_blank pre = true -> is_blank c = false -> ch c 35 = false -> ch c 47 = false ->
   schema_len (pre ++ c :: r) = VLen n -> (0 < n)%N.
 Proof. intros pre c r n _ _ _ _ H. exact (schema_len_positive_always _ _ H). Qed.
+
+(* ================================================================== *)
+(* 9. the end of input inside an opener (fixes 0219b8c, ca80efc)       *)
+(* ================================================================== *)
+Lemma s_step_set_stk stk s : s_step (set_stk stk s) = s_step s.
+Proof. destruct s; reflexivity. Qed.
+
+Lemma tail_done_step size lastb : forall fuel s index acc acc',
+  tail fuel s index size lastb acc = (acc', Done) -> unfinished_step (s_step s) = false.
+Proof.
+  induction fuel as [|fuel IH]; intros s index acc acc'; cbn [tail]; [discriminate|].
+  destruct (s_stk s) as [|[t b] rest].
+  - destruct (unfinished_step (s_step s)); [discriminate|reflexivity].
+  - destruct t; try discriminate.
+    + destruct (ev_eqb LiteralBegin LiteralBegin && s_unf s)%bool; [discriminate|].
+      destruct (process_found _ _ _ _ _) as [[stk' x]|]; [|discriminate].
+      intros H. apply IH in H. rewrite s_step_set_stk in H. exact H.
+    + destruct (ev_eqb InlineAnnotationBegin LiteralBegin && s_unf s)%bool; [discriminate|].
+      destruct (process_found _ _ _ _ _) as [[stk' x]|]; [|discriminate].
+      intros H. apply IH in H. rewrite s_step_set_stk in H. exact H.
+    + destruct (ev_eqb InlineAnnotationTextBegin LiteralBegin && s_unf s)%bool; [discriminate|].
+      destruct (process_found _ _ _ _ _) as [[stk' x]|]; [|discriminate].
+      intros H. apply IH in H. rewrite s_step_set_stk in H. exact H.
+    + destruct (s_unf s); [discriminate|].
+      destruct (process_found _ _ _ _ TypesShortcutEnd) as [[stk1 x1]|]; [|discriminate].
+      destruct (process_found _ _ _ _ MixedValueEnd) as [[stk2 x2]|]; [|discriminate].
+      intros H. apply IH in H. rewrite s_step_set_stk in H. exact H.
+Qed.
+
+(* an accepted text never ends after the first byte of // or /*, after ##, or inside a ### comment *)
+Theorem scan_done_not_unfinished : forall lc bs, snd (scan lc bs) = Done ->
+  r_out (run (new_scanner lc) 0%N None bs []) = Done /\
+  unfinished_step (s_step (r_sc (run (new_scanner lc) 0%N None bs []))) = false.
+Proof.
+  intros lc bs. unfold scan.
+  destruct (run (new_scanner lc) 0%N None bs []) as [[[acc o] s] pb']. unfold r_out, r_sc. cbn [fst snd].
+  destruct o; [|discriminate|discriminate].
+  destruct (tail (S (length (s_stk s))) s (N.of_nat (length bs)) (N.of_nat (length bs)) (last_byte bs None) acc)
+    as [acc' o'] eqn:Et.
+  cbn [snd]. intros ->. split; [reflexivity|]. exact (tail_done_step _ _ _ _ _ _ _ Et).
+Qed.
+
+(* conversely: when the bytes are consumed without error, nothing is open, and the step is one of the
+   four unfinished ones, the text is refused at its last byte *)
+Theorem scan_ends_inside_opener : forall lc bs,
+  r_out (run (new_scanner lc) 0%N None bs []) = Done ->
+  s_stk (r_sc (run (new_scanner lc) 0%N None bs [])) = [] ->
+  unfinished_step (s_step (r_sc (run (new_scanner lc) 0%N None bs []))) = true ->
+  snd (scan lc bs) = Err code_unexpected_eof (N.of_nat (length bs) - 1)%N.
+Proof.
+  intros lc bs. unfold scan.
+  destruct (run (new_scanner lc) 0%N None bs []) as [[[acc o] s] pb']. unfold r_out, r_sc. cbn [fst snd].
+  intros -> Hs Hu. rewrite Hs. cbn [length tail]. rewrite Hs, Hu. reflexivity.
+Qed.
+
+(* a concrete family: blanks, then the first byte of an annotation opener, or ## *)
+Lemma blank_not_opener b : is_blank b = true -> ch b 47 = false /\ ch b 35 = false.
+Proof.
+  unfold is_blank, is_space, is_nl, ch. cbv zeta. intros H.
+  destruct (N.eqb_spec (bN b) 32) as [->|_]; [split; reflexivity|].
+  destruct (N.eqb_spec (bN b) 9) as [->|_]; [split; reflexivity|].
+  destruct (N.eqb_spec (bN b) 10) as [->|_]; [split; reflexivity|].
+  destruct (N.eqb_spec (bN b) 13) as [->|_]; [split; reflexivity|discriminate H].
+Qed.
+
+Lemma root_blank_rb lc n idx pb b la acc : is_blank b = true ->
+  read_byte (S n) (new_scanner lc) idx pb b la acc =
+  (if is_nl b then mkev NewLine idx idx false :: acc else acc, inl (new_scanner lc)).
+Proof.
+  intros Hb. destruct (blank_not_opener b Hb) as [H47 H35].
+  unfold new_scanner. cbn [read_byte s_step]. change call_fuel with 16. rewrite call_S.
+  lazy beta iota delta [dispatch]. unfst. unf. rewrite H47, H35. unfold is_new_line. cbn [s_ann]. rewrite Hb.
+  destruct (is_nl b); reflexivity.
+Qed.
+
+Lemma run_blank_prefix lc rest : forall pre idx pb acc, forallb is_blank pre = true ->
+  exists pb' acc', run (new_scanner lc) idx pb (pre ++ rest) acc =
+                   run (new_scanner lc) (idx + N.of_nat (length pre))%N pb' rest acc'.
+Proof.
+  induction pre as [|b pre IH]; intros idx pb acc Hb.
+  - exists pb, acc. cbn [app length]. rewrite N.add_0_r. reflexivity.
+  - cbn [forallb] in Hb. apply andb_prop in Hb. destruct Hb as [Hb1 Hb2].
+    cbn [app run]. change (length (s_rts (new_scanner lc))) with 0.
+    rewrite (root_blank_rb lc 0 idx pb b (pre ++ rest) acc Hb1).
+    change (s_skip (new_scanner lc)) with false. cbv iota.
+    destruct (IH (N.succ idx) (Some b) (if is_nl b then mkev NewLine idx idx false :: acc else acc) Hb2)
+      as [pb' [acc' E]].
+    exists pb', acc'. rewrite E. f_equal. cbn [length]. lia.
+Qed.
+
+Theorem scan_blank_then_slash : forall lc pre, forallb is_blank pre = true ->
+  snd (scan lc (pre ++ [x2f])) = Err code_unexpected_eof (N.of_nat (length pre)).
+Proof.
+  intros lc pre Hb.
+  destruct (run_blank_prefix lc [x2f] pre 0%N None [] Hb) as [pb' [acc' E]].
+  assert (Hrun : exists acc2 s2 pb2,
+            run (new_scanner lc) 0%N None (pre ++ [x2f]) [] = (acc2, Done, s2, pb2) /\
+            s_stk s2 = [] /\ s_step s2 = AnyAnnotationStart).
+  { rewrite E. destruct lc; vm_compute; eexists; eexists; eexists; repeat split. }
+  destruct Hrun as [acc2 [s2 [pb2 [Er [Hs Hst]]]]].
+  pose proof (scan_ends_inside_opener lc (pre ++ [x2f])) as H. rewrite Er in H.
+  unfold r_out, r_sc in H. cbn [fst snd] in H. rewrite Hst in H. specialize (H eq_refl Hs eq_refl).
+  rewrite H. rewrite app_length. cbn [length]. f_equal. lia.
+Qed.
+
+Theorem scan_blank_then_two_hashes : forall lc pre, forallb is_blank pre = true ->
+  snd (scan lc (pre ++ [x23; x23])) = Err code_unexpected_eof (N.of_nat (length pre) + 1)%N.
+Proof.
+  intros lc pre Hb.
+  destruct (run_blank_prefix lc [x23; x23] pre 0%N None [] Hb) as [pb' [acc' E]].
+  assert (Hrun : exists acc2 s2 pb2,
+            run (new_scanner lc) 0%N None (pre ++ [x23; x23]) [] = (acc2, Done, s2, pb2) /\
+            s_stk s2 = [] /\ s_step s2 = MultiLineCommentStart).
+  { rewrite E. destruct lc; vm_compute; eexists; eexists; eexists; repeat split. }
+  destruct Hrun as [acc2 [s2 [pb2 [Er [Hs Hst]]]]].
+  pose proof (scan_ends_inside_opener lc (pre ++ [x23; x23])) as H. rewrite Er in H.
+  unfold r_out, r_sc in H. cbn [fst snd] in H. rewrite Hst in H. specialize (H eq_refl Hs eq_refl).
+  rewrite H. rewrite app_length. cbn [length]. f_equal. lia.
+Qed.
+
+(* "an accepted text followed by a blank and '/' is refused at that '/' with Err 303" is FALSE in
+   general: inside an inline annotation text or a comment '/' is just text; after a non-empty array
+   an annotation is not allowed (304); after an inline annotation has ended with its line, '/' is
+   an invalid character (301); in length mode a byte after an annotation object ends the schema *)
+Definition of_codes (l : list N) : bytes :=
+  map (fun n => match Byte.of_N n with Some b => b | None => x00 end) l.
+Example blank_slash_after_accepted_text :
+  (* "1" *)
+  snd (scan false (of_codes [49]%N ++ [x20; x2f])) = Err 303 2 /\
+  (* "1 // abc" *)
+  snd (scan false (of_codes [49; 32; 47; 47; 32; 97; 98; 99]%N)) = Done /\
+  snd (scan false (of_codes [49; 32; 47; 47; 32; 97; 98; 99]%N ++ [x20; x2f])) = Done /\
+  (* "1 # c" *)
+  snd (scan false (of_codes [49; 32; 35; 32; 99]%N ++ [x20; x2f])) = Done /\
+  (* "[1,2]" *)
+  snd (scan false (of_codes [91; 49; 44; 50; 93]%N)) = Done /\
+  snd (scan false (of_codes [91; 49; 44; 50; 93]%N ++ [x20; x2f])) = Err 304 6 /\
+  (* "1 // abc" LF *)
+  snd (scan false (of_codes [49; 32; 47; 47; 32; 97; 98; 99; 10]%N)) = Done /\
+  snd (scan false (of_codes [49; 32; 47; 47; 32; 97; 98; 99; 10]%N ++ [x20; x2f])) = Err 301 10 /\
+  (* "1 // {a:1}" *)
+  snd (scan true (of_codes [49; 32; 47; 47; 32; 123; 97; 58; 49; 125]%N)) = Done /\
+  snd (scan true (of_codes [49; 32; 47; 47; 32; 123; 97; 58; 49; 125]%N ++ [x20; x2f])) = Done /\
+  snd (scan false (of_codes [49; 32; 47; 47; 32; 123; 97; 58; 49; 125]%N ++ [x20; x2f])) = Err 301 11.
+Proof. vm_compute. repeat split; reflexivity. Qed.
